@@ -1,4 +1,4 @@
 SPECIFICATION TraceSpec
-INVARIANTS C22_NoPanic C22_OnlyGenerator C22_Exact C22_Split C22_OncePerRound
+INVARIANTS HarnessFeesCollected C22_NoPanic C22_OnlyGenerator C22_Exact C22_Split C22_OncePerRound
 POSTCONDITION Accepted
 CHECK_DEADLOCK FALSE
